@@ -103,6 +103,7 @@ ControlOps == {"Root", "Commit", "Reload", "Copy", "CopySwap", "Finalise", "Flus
 DynPrelude == CASE Alpha = "slots" -> <<Rec("SetState", 1, 0, 5, 1, 0, 0), Rec("AddBalance", 2, 0, 1, 0, 0, 0), Rec("Commit", 0, 0, 0, 0, 0, 0)>>
                 [] Alpha = "old"   -> <<Rec("AddBalance", 2, 0, 1, 0, 0, 0), Rec("Commit", 0, 0, 0, 0, 0, 0)>>
                 [] Alpha = "recs2" -> <<Rec("AddRecord", 0, 1, -1, 0, 0, 1), Rec("AddRecord", 0, 1, -1, 0, 0, 2), Rec("AddRecord", 0, 1, -1, 0, 0, 1)>>
+                [] Alpha = "reset" -> <<Rec("AddRecord", 0, 1, 9, 0, 0, 1), Rec("AddRel", 1, 1, 0, 0, 0, 0), Rec("Commit", 0, 0, 0, 0, 0, 0)>>
                 [] Alpha = "blind" -> <<Rec("CreateValidator", 0, 1, 15, 0, 0, 0), Rec("AddBalance", 2, 0, 1, 0, 0, 0), Rec("Reload", 0, 0, 0, 0, 0, 0)>>
                 [] OTHER -> <<>>
 InPrelude == Len(hist) < Len(DynPrelude)
@@ -193,6 +194,20 @@ AddRecordOther(a, v, h, d) ==
 ReloadOld(k) ==
    /\ k <= Len(ch)
    /\ Tick(Rec("ReloadOld", 0, 0, k, 0, 0, 0))
+   /\ UNCHANGED <<live, tries, blobs, book, node, aux, clean, copyOk, failed>>
+\* StateDB.ResetStakingTrie (core.ResetStakingTrieOnNewPeriod: the same object is carried over a staking-period boundary): the
+\* staking trie starts empty again -- staking records and pending relationships become empty, in memory and in the trie;
+\* nothing else changes
+ResetStaking ==
+   /\ Tick(Rec("ResetStaking", 0, 0, 0, 0, 0, 0))
+   /\ rec' = [k \in RecKeys |-> NoRec] /\ rel' = {}
+   /\ trec' = [k \in RecKeys |-> NoRec] /\ trel' = {}
+   /\ dRec' = {} /\ dRel' = FALSE
+   /\ clean' = "" /\ copyOk' = TRUE
+   /\ UNCHANGED <<acc, val, wq, tacc, tval, twq, blobs, dAcc, oDirty, dCode, dDl, dVal, jd, unex, nod, zomb, node, aux, failed>>
+\* GetStakingRecord / PendingValidatorExist: a read (it loads the record into the object's cache)
+ReadRecord(a, v) ==
+   /\ Tick(Rec("ReadRecord", a, v, 0, 0, 0, 0))
    /\ UNCHANGED <<live, tries, blobs, book, node, aux, clean, copyOk, failed>>
 AddRel(a, v) ==
    /\ Tick(Rec("AddRel", a, v, 0, 0, 0, 0))
@@ -290,7 +305,9 @@ GC ==
    /\ blobs' = Both(Reach(cacc, blobs), dsk.blobs)
    /\ dsk' = [dsk EXCEPT !.blobs = Both(@, blobs')]
    /\ garb' = FALSE
-   /\ UNCHANGED <<live, tries, book, cacc, fl, fo, clean, copyOk, failed, aux>>
+   \* the collected roots can no longer be reopened: only the last commit stays in the history ReloadOld draws from
+   /\ ch' = IF Len(ch) > 0 THEN <<ch[Len(ch)]>> ELSE ch
+   /\ UNCHANGED <<live, tries, book, cacc, fl, fo, clean, copyOk, failed, orec, hasOther>>
 \* a restart: state.New(last flushed roots) over a fresh state.Database (empty cache) on the same disk
 DiskReadable == \A a \in Accts : LET r == dsk.tr[1][a] IN
                    /\ (r.code = 0 \/ r.code \in dsk.blobs.code)
@@ -368,11 +385,16 @@ PreludeStep ==
      [] p.op = "AddBalance" -> AddBalance(p.a, p.d)
      [] p.op = "AddRecord"  -> AddRecord(p.a, p.v, p.h, p.d)
      [] p.op = "Commit"     -> Commit
+     [] p.op = "AddRel"     -> AddRel(p.a, p.v)
      [] p.op = "Reload"     -> Reload
      [] p.op = "CreateValidator" -> CreateValidator(p.v, p.d)
      [] OTHER -> FALSE
 NextBlind ==     \* a freshly loaded state copied and the copy committed, with and without reads in between
    \/ CopyStep("CopySwap") \/ Reload \/ Commit \/ Root \/ Deposit(1, 7)
+NextReset ==     \* one object carried over a staking-period boundary: records flushed / committed / reloaded and read, the reset, the
+                 \* same key recorded again
+   \/ AddRecord(0, 1, 2, 4) \/ ReadRecord(0, 1)
+   \/ ResetStaking \/ Root \/ Commit \/ Reload
 NextSlots ==     \* storage writes grouped by transaction ends (Finalise) and block ends: a slot with a committed non-zero original
                  \* (account 1 slot 1 = 5) and a fresh slot (account 2 slot 1), values {original, other, zero}, write-backs
    \/ \E x \in {0, 5, 6} : SetState(1, 1, x)
@@ -397,11 +419,12 @@ NextRich ==
    \/ \E a \in Accts, v \in Vals : AddRel(a, v)
    \/ Control \/ Reload \/ Finalise \/ CopyStep("CopySwap") \/ Flush \/ GC \/ Restart
    \/ \E k \in 1..4 : ReloadOld(k)
+   \/ ResetStaking \/ (\E a \in {0, 1}, v \in Vals : ReadRecord(a, v))
    \/ \E a \in {0, 1}, v \in Vals, h \in {1, 2}, d \in {-1, 4} : AddRecordOther(a, v, h, d)
 
 Next == /\ Bounded
         /\ IF InPrelude THEN PreludeStep ELSE IF LastBlindCopy THEN Reload ELSE
-           CASE Alpha = "blind" -> NextBlind [] Alpha = "acct" -> NextAcct [] Alpha = "macct" -> (NextAcct \/ Reload) [] Alpha = "val" -> NextVal [] Alpha = "recs" -> NextRecs [] Alpha = "disk" -> NextDisk [] Alpha = "deleg2" -> NextDeleg2
+           CASE Alpha = "blind" -> NextBlind [] Alpha = "reset" -> NextReset [] Alpha = "acct" -> NextAcct [] Alpha = "macct" -> (NextAcct \/ Reload) [] Alpha = "val" -> NextVal [] Alpha = "recs" -> NextRecs [] Alpha = "disk" -> NextDisk [] Alpha = "deleg2" -> NextDeleg2
              [] Alpha = "slots" -> NextSlots [] Alpha = "old" -> NextOld [] Alpha = "recs2" -> NextRecs2 [] OTHER -> NextRich
 Spec == Init /\ [][Next]_vars
 
